@@ -29,6 +29,14 @@ func C12CLI(r *simkit.Run) {
 		st.SQL = strings.Replace(st.SQL, "(id) VALUES ('"+st.ID+"')", "(id, n) VALUES ('"+st.ID+"', length('a b'))", 1)
 		v.Stmts = append(v.Stmts, st)
 	}
+	// Sometimes the file also creates a trigger: one statement with semicolons of its own
+	// (BEGIN ... END), which only the SQLite driver's statement scanner keeps in one piece.
+	if t.Chance("victim-creates-a-trigger", 1, 3) {
+		trg := Stmt{ID: "f2.trg", Kind: KDDL, SQL: "CREATE TRIGGER IF NOT EXISTS trg_f2 AFTER INSERT ON journal BEGIN SELECT 1; END"}
+		v.Stmts = append([]Stmt{v.Stmts[0], trg}, v.Stmts[1:]...)
+		n++
+		r.Probe("victim-creates-a-trigger")
+	}
 	k := 1 + t.Draw("fail-at", n-1) // statement k fails: k statements are recorded as applied
 	good := v.Stmts[k]
 	// The partial state comes from a failing statement (the revision then carries its error text)
@@ -158,6 +166,27 @@ func C12CLI(r *simkit.Run) {
 	r.Logf("edit %s at %d (%s,%s) -> %v", kind, at, where, lenChange, ids)
 	r.Sample("edit: %s at %d (%s, %s) -> statements %v; `migrate hash`", kind, at, where, lenChange, ids)
 	before := w.Observe()
+	// A dry run first, sometimes: it takes the same decision (and changes nothing).
+	if t.Chance("dry-run-first", 1, 3) {
+		dr := w.Atlas(nil, "migrate", "apply", "--dir", w.DirURL(), "--url", w.URL(), "--tx-mode", "none", "--dry-run")
+		r.Logf("dry run after edit -> %s", dr.Class())
+		r.Fired("dry-run-of-the-resumed-file")
+		switch {
+		case dr.Panicked:
+			r.Fail(propC12, "no-crash", "panic/dry-run", "migrate apply --dry-run crashed with a Go panic on the edited file: %s", dr.ErrLine())
+			return
+		case !touches && (dr.Exit != 0 || strings.Contains(dr.Stderr+dr.Stdout, "history changed")):
+			r.Fail(propC12, "resume", "dry-run-refuses-a-resumable-file", "the applied statements of the file are unchanged (%s at %d, applied=%d), yet `migrate apply --dry-run` -> %s: %s", kind, at, k, dr.Class(), dr.ErrLine())
+			return
+		case touches && dr.Exit == 0:
+			r.Fail(propC12, "refuse", "not-refused/dry-run/"+kind, "applied part changed (%s at %d, applied=%d) but migrate apply --dry-run -> ok", kind, at, k)
+			return
+		}
+		if mid := w.Observe(); mid.Digest() != before.Digest() {
+			r.Fail(propC12, "refuse-clean", "dry-run-changed-the-database", "migrate apply --dry-run on the edited file changed the database: [%s] -> [%s]", before.RevDigest(), mid.RevDigest())
+			return
+		}
+	}
 	res = apply()
 	after := w.Observe()
 	r.Logf("apply after edit -> %s effects=%s revs=[%s]", res.Class(), EffectVector(after, files), after.RevDigest())
